@@ -514,7 +514,7 @@ func (d *drv) exec(c Ev) {
 				}
 				cb(err, n, tok)
 			})
-		case "readfrom":
+		case "readfrom", "readfromempty": // (empty: the oldest queued datagram has no payload, the read fails at once with EOF)
 			if ob.mcp != nil {
 				b := d.buf(8)
 				ob.mcp.AsyncRead(b, func(err error, n int, _ netip.AddrPort) {
@@ -802,6 +802,25 @@ func (d *drv) env(what string, oi int, n int) {
 		}
 		if !ob.closed && ob.kind != "reg" {
 			if !d.waitFd(ob.fd, unix.POLLIN) {
+				note += " barrier-timeout"
+			}
+		}
+	case "steal":
+		// someone who shares the listening socket (another acceptor) takes the oldest queued connection
+		if ob.kind == "lst" {
+			if fd, _, err := syscall.Accept(ob.fd); err == nil {
+				syscall.Close(fd)
+			} else {
+				note = "accept: " + err.Error()
+			}
+		}
+	case "sendempty":
+		// a datagram without payload: a datagram read that meets it completes at once, with an error
+		if ob.kind == "pkt" || ob.kind == "mcp" {
+			if err := syscall.Sendto(ob.peer, nil, 0, &syscall.SockaddrInet4{Port: ob.port, Addr: [4]byte{127, 0, 0, 1}}); err != nil {
+				note = "sendto: " + err.Error()
+			}
+			if !ob.closed && !d.waitFd(ob.fd, unix.POLLIN) {
 				note += " barrier-timeout"
 			}
 		}
